@@ -36,6 +36,7 @@ import (
 	"github.com/enfein/mieru/v3/pkg/metrics"
 	"github.com/enfein/mieru/v3/pkg/protocol/serveruser"
 	"github.com/enfein/mieru/v3/pkg/stderror"
+	"github.com/enfein/mieru/v3/pkg/verifhook"
 	"google.golang.org/protobuf/proto"
 	"google.golang.org/protobuf/types/known/timestamppb"
 )
@@ -282,6 +283,9 @@ func (s *Session) Read(b []byte) (n int, err error) {
 
 			// recvQueue is empty and we haven't read anything.
 			// Wait for incoming segments to fill the recvQueue.
+			if verifhook.Enabled {
+				verifhook.Event("read.wait", s.id)
+			}
 			select {
 			case <-s.closedChan:
 				if s.recvTruncated.Load() {
